@@ -7,10 +7,17 @@ package dashboards
 // (string-level fact: ASSUMED; see pkg/lookups/zz_verif_contracts.go for the
 // discipline).  Checked by /verif/bin/govc.  Comment-only file.
 
+// Verified: the id is reduced to its last path element (filepath.Base,
+// assumed to return a safe name) before it is formatted into the path.
 //@ func getDashboardDetailsPath
+//@   props C19
+//@   ensures uf("confined", bool, result)
+//@   pure
+//@ end
+
+//@ func isDefaultDashboard
 //@   assumed
 //@   pure
-//@   ensures uf("confined", bool, result)
 //@ end
 
 //@ func getDashboard
